@@ -301,7 +301,7 @@ theorem rootedAt_mkdirP {d : Path} {fs fs' : FS} (h : RootedAt d fs) (p : Path)
 def Call.plain : Call → Bool
   | .mkdirP _ | .mkTemp _ | .fallocate _ _ | .writeAt _ _ _ | .truncate _ _ | .rename _ _
   | .openAppend _ | .appendWrite _ _ | .readFile _ | .existsF _ | .sizeOf _ | .unlink _
-  | .walk _ | .readDir _ | .now | .isLink _ => true
+  | .walk _ | .readDir _ | .now | .isLink _ | .sameFile _ _ => true
   | _ => false
 
 theorem exec_rootedAt (env : Env) (fs : FS) (c : Call) (d : Path) (hc : Call.plain c = true)
